@@ -526,3 +526,23 @@ gcsim("C16", "Fork support: workers surrender and respawn cleanly",
       design_ref="2/C16",
       shards=lambda tier, seed: sched_shards(tier, seed, 16, scenario="fork", plans=["SemiSpace", "GenImmix", "Immix", "MarkSweep", "MarkCompact", "ConcurrentImmix", "StickyImmix", "Compressor"]),
       floors={"quick": {"fork_round_trips": 150, "surrenders": 400, "workers_spawned": 400, "exit_requested_while_gc_pending_or_running": 5}})
+
+
+def c08_shards(tier, seed):
+    return (std_gc_shards(tier, seed, 8, ["lookups", "weak", "finalizers"], single_mutator=True, variants="AB", plans_filter=COLLECTING + ["Compressor"])
+            + std_gc_shards(tier, seed, 80, ["lookups"], variants="AB", plans_filter=["Immix", "MarkSweep", "GenCopy", "NoGC", "Compressor", "ConcurrentImmix"]))
+
+
+gcsim("C08", "Interior-pointer and conservative lookups resolve to the right object",
+      rule=GC_RULE + "vo_bit variants (A: reference = start + 8, B: reference = start); probes of memory_manager::is_mmtk_object and find_object_from_internal_pointer (i) at every pause end (world stopped) on a sample of "
+           "live objects incl. all-semantics, multi-page large objects and unreachable immortal objects, (ii) from mutators on objects they hold, possibly allocated a moment ago, (iii) after forced exhaustive GCs of single-mutator "
+           "programs - where the shadow heap knows every valid object - on gaps, one-past-the-end addresses, object starts below the reference, page and chunk boundaries, and objects that died in that GC, (iv) on addresses outside "
+           "the heap (low addresses, stack, static, malloc, heap edges, 2^47+-8, 2^63, usize::MAX&~7, the side-metadata range). Expected: reference -> Some(itself); interior address -> is_mmtk_object None; "
+           "find(p, n) = Some(o) for n in {d+8, d+4096, d+1MiB} and None for n in {d-8, 8} where d = p - o.ref (n == d is never probed: property text and API doc differ at equality); exact state: the model answer for every probed address; "
+           "a panic in either function is a violation; case = one query; distinct = (exact?, large objects?, probe-count classes)",
+      technique="reference-model monitor (shadow-heap interval map) on the two lookup functions at quiescent points of live runs; panics trapped and reported",
+      level_text="Each query's answer is compared with the shadow heap; 'None expected' queries on gaps and freed memory only where liveness is exact. Exploration over generated heaps, not all addresses.",
+      note="Stale VO bits of dead objects between non-exhaustive GCs are legitimate and never judged.",
+      design_ref="2/C08", shards=c08_shards,
+      floors={"quick": {"is_mmtk_object_on_valid_refs": 50000, "is_mmtk_object_on_interior_addresses": 200000, "find_expected_some": 500000, "find_expected_none_short_window": 200000,
+                        "find_on_los_objects": 50000, "exact_gap_and_boundary_probes": 50000, "outside_heap_probes": 5000, "probe_batches_exact": 100}})
